@@ -67,7 +67,8 @@ Inductive op :=
   | SetPoints (flat : bool) (v : list point)
   | SetWeights (v : list Z)
   | Query (c : centre) (r : radius)
-  | GetItem (ix : index).
+  | GetItem (ix : index)
+  | Enter (ix : index).      (* g = g[ix]: the history continues on the selected grid (when the selection succeeds) *)
 
 (* ------------------------------------------------------------------ geometry *)
 Fixpoint dist2 (p c : point) : Z :=
@@ -262,6 +263,12 @@ Section Machine.
         else (OErr EValue, g)
     | Query c r => query k g c r
     | GetItem ix => (getitem cfg k g ix, g)
+    | Enter ix =>
+        match getitem cfg k g ix with
+        (* a freshly constructed grid of the same class: its own points and weights, no tree yet *)
+        | OSel k' p w x => (OSel k' p w x, mkst p w (s_flat g) (s_dim g) (s_centre g) x TNone)
+        | ob => (ob, g)
+        end
     end.
 
   Fixpoint run (k : cls) (g : state) (ops : list op) : list obs :=
